@@ -59,7 +59,7 @@ var propertyCanaries = map[string][]string{
 	"C08": {"ASM.lost", "PARAMUSE.read", "ASM.window", "ASM.tail", "ASM.units", "STRIDE.extent", "SIB.guards"},
 	"C09": {"GOPROTO.scratch", "GLOBAL.write", "GOPROTO.capture", "GOPROTO.lockpair", "GOPROTO.sibling", "POOL.uaf"},
 	"C12": {"GRAPHINV.panicorder", "GRAPHINV.absent", "GRAPHINV.iterreset", "GRAPHINV.converse", "GRAPHINV.uid", "GRAPHINV.iter", "TWIN.sibstate"},
-	"C16": {"DECODE.errdrop", "DECODE.mul", "DECODE.selfcmp", "DECODE.clone", "DECODE.fields"},
+	"C16": {"DECODE.order", "DECODE.errdrop", "DECODE.mul", "DECODE.selfcmp", "DECODE.clone", "DECODE.fields"},
 	"C17": {"GLOBAL.write", "RESET.fields", "WINDOW.pointwise"},
 	"C18": {"CONST.stencil", "GOPROTO.sibling"},
 	"C19": {"GOPROTO.scratch", "GOPROTO.run", "INIT.state"},
@@ -94,6 +94,7 @@ func init() {
 		{"ASM.lost", "internal/asm/c64/dotcunitary_amd64.s", "\tADDPS X3, SUM // SUM += X_i\n\ndotc_end:", "\tMOVAPS X3, SUM // SUM = X_i\n\ndotc_end:", func() *core.Result { return asmx.Run() }},
 		{"ASM.lost", "internal/asm/c64/dotcunitary_amd64.s", "\tCMPQ TAIL, $0 // if TAIL == 0 { return }\n\tJE   dotc_end", "\tCMPQ TAIL, $0 // if TAIL == 0 { return }\n\tJE   dotc_ret", func() *core.Result { return asmx.Run() }},
 		{"ARGS.fullrow", "blas/gonum/dgemm.go", "len(c) < (m-1)*ldc+n", "len(c) < m*ldc", func() *core.Result { return worksize.RunArms(def, core.Pkgs("./blas/gonum")) }},
+		{"DECODE.order", "mat/io.go", "\tif len(data) != headerSize+int(rows*cols)*sizeFloat64 {\n\t\treturn errBadBuffer\n\t}\n", "\tm.reuseAsNonZeroed(int(rows), int(cols))\n\tif len(data) != headerSize+int(rows*cols)*sizeFloat64 {\n\t\treturn errBadBuffer\n\t}\n", func() *core.Result { return decode.RunOrder(def, core.Pkgs("./mat")) }},
 		{"WORKSIZE.min", "lapack/gonum/dgels.go", "wsize := max(1, mn+max(mn, nrhs)*nb)", "wsize := max(1, mn+mn*nb)", wsz},
 		{"WORKSIZE.querylen", "lapack/gonum/dormqr.go", "case lwork < max(1, nw) && lwork != -1:\n\t\tpanic(badLWork)", "case lwork < max(1, nw) && lwork != -1:\n\t\tpanic(badLWork)\n\tcase len(tau) != k:\n\t\tpanic(badLenTau)", wsz},
 		{"WORKSIZE.min", "lapack/gonum/dsyev.go", "lworkopt := max(1, (nb+2)*n)", "lworkopt := max(1, (nb+1)*n)", wsz},
@@ -138,7 +139,7 @@ func init() {
 		{"GRAPHINV.iter", "graph/iterator/nodes_map.go", "n.pos++", "_ = n.pos", func() *core.Result { return graphinv.RunIterators(def) }},
 		{"DECODE.mul", "mat/io.go", "if cols != 0 && rows > maxLen/cols {\n\t\treturn errTooBig\n\t}\n\tsize := rows * cols\n\tif size == 0 {\n\t\treturn ErrZeroLength", "size := rows * cols\n\tif size == 0 {\n\t\treturn ErrZeroLength", func() *core.Result { return decode.Run(def, "./mat") }},
 		{"DECODE.selfcmp", "stat/card/hll32.go", "ta := reflect.TypeOf(a.hash)", "ta := reflect.TypeOf(b.hash)", func() *core.Result { return decode.Run(def, "./stat/card") }},
-		{"DECODE.fields", "stat/card/hll32.go", "err = dec.Decode(&h.p)\n\tif err != nil {", "var p0 uint8\n\terr = dec.Decode(&p0)\n\tif err != nil {", func() *core.Result { return decode.RunFields(def, "./stat/card") }},
+		{"DECODE.fields", "stat/card/hll32.go", "\th.p = p\n", "\t_ = p\n", func() *core.Result { return decode.RunFields(def, "./stat/card") }},
 		{"DECODE.clone", "graph/formats/rdf/urna.go", "ordered: make([]string, len(i.ordered)),", "ordered: i.ordered,", func() *core.Result { return decode.RunClone(def, "./graph/formats/rdf") }},
 		{"RESET.fields", "dsp/fourier/fourier.go", "\tfftpack.Rffti(n, t.work, t.ifac[:])", "\tfftpack.Rffti(n, t.work, make([]int, 15))", func() *core.Result { return dspx.RunReset(def) }},
 		{"WINDOW.pointwise", "dsp/window/window_parametric.go", "v = seq[len(seq)-1-i]\n", "", func() *core.Result { return dspx.RunWindow(def) }},
